@@ -194,3 +194,22 @@ Proof.
       simpl in H1, H2, H3. subst lim'. apply IH; assumption. }
   apply (G slices 0%Z L F); [lia | reflexivity].
 Qed.
+
+(* slicing depends on the variant only through fix_slice *)
+Lemma fold_left_ext {A B} (g h : A -> B -> A) l : (forall a b, g a b = h a b) -> forall a, fold_left g l a = fold_left h l a.
+Proof. intro E. induction l as [|b r IH]; intro a; simpl; [reflexivity | rewrite E; apply IH]. Qed.
+
+Theorem slices_fixed vr top_only L slices :
+  fix_slice vr = true -> run_slices vr top_only L slices = spec_slices top_only L slices.
+Proof.
+  intro Hs. rewrite <- (slices_current top_only L slices). unfold run_slices.
+  assert (Ew : forall off lim, window vr top_only off lim L = window current top_only off lim L).
+  { intros. unfold window. rewrite Hs. reflexivity. }
+  assert (Es : forall n off lim a b, slice_step vr n off lim a b = slice_step current n off lim a b).
+  { intros. unfold slice_step. rewrite Hs. reflexivity. }
+  rewrite (fold_left_ext _ (fun (st : Z * option Z) (sl : option Z * option Z) =>
+             let n := Z.of_nat (List.length (window current top_only (fst st) (snd st) L)) in
+             slice_step current n (fst st) (snd st) (fst sl) (snd sl))).
+  - apply Ew.
+  - intros st sl. cbv zeta. rewrite Ew, Es. reflexivity.
+Qed.
